@@ -5,6 +5,7 @@ use serde_json::{json, Value};
 pub mod c01;
 pub mod c02;
 pub mod c03;
+pub mod c06;
 pub mod c07;
 pub mod c08;
 pub mod c09;
@@ -18,6 +19,7 @@ pub fn lanes_of(id: &str) -> Vec<(&'static str, LaneFn)> {
         "C01" => vec![("routing", c01::routing), ("hostile_ids", c01::hostile_ids), ("abandoned", c01::abandoned)],
         "C02" => vec![("requests", c02::requests), ("modifiers", c02::modifiers)],
         "C03" => vec![("responses", c03::responses), ("helpers", c03::helpers)],
+        "C06" => vec![("decoder_prefixes", c06::decoder_prefixes), ("partitions", c06::partitions), ("exhaustive_splits", c06::exhaustive_splits)],
         "C07" => vec![("trees", c07::trees), ("integers", c07::integers), ("nonminimal", c07::nonminimal)],
         "C08" => vec![("generated", c08::generated), ("exhaustive", c08::exhaustive), ("mutated", c08::mutated), ("rejection", c08::rejection_classes)],
         "C09" => vec![("exhaustive_short", c09::exhaustive_short), ("exhaustive_meta", c09::exhaustive_meta), ("random", c09::random)],
@@ -49,6 +51,7 @@ pub fn replay(ctx: &Ctx, id: &str, v: &Value) -> Value {
         "C01" => c01::replay(ctx, v),
         "C02" => c02::replay(ctx, v),
         "C03" => c03::replay(ctx, v),
+        "C06" => c06::replay(ctx, v),
         "C07" => c07::replay(ctx, v),
         "C08" => c08::replay(ctx, v),
         "C09" => c09::replay(ctx, v),
